@@ -35,6 +35,21 @@ Definition parse_payload (pt : bytes) : outcome (bytes * option bytes) :=
   | _ => Panic
   end.
 
+(* the documented framing read strictly: len|measurement, then nothing or exactly one len|aux *)
+Definition parse_payload_strict (pt : bytes) : outcome (bytes * option bytes) :=
+  match load_bytes pt with
+  | Ok m =>
+      let! rest := slice_from pt (4 + length m) in
+      match rest with
+      | [] => Ok (m, None)
+      | _ => match load_bytes rest with
+             | Ok a => if Nat.eqb (length rest) (4 + length a) then Ok (m, Some a) else Err
+             | _ => Err
+             end
+      end
+  | _ => Err
+  end.
+
 Section WithF.
 Variable F : list N -> list N.
 
@@ -79,4 +94,17 @@ Definition wasm_material (m e : bytes) (t : N) (x : fp) : outcome (option (bytes
   end.
 
 Definition share_recover := arecover F.
+
+(* n clients of one measurement: the sharing and the key are computed once *)
+Definition star_reports (m e : bytes) (t : N) (rnd : bytes) (clients : list (option bytes * fp))
+  : outcome (option (list message)) :=
+  match shares_at F (commune_of t rnd) (map snd clients) with
+  | Ok (Some shs) =>
+      let k := derive_ske_key (r0 rnd) e in
+      Ok (Some (map (fun p => {| mCt := ct_new k (payload m (fst (fst p))) Params.lbl_star_encrypt;
+                                 mShare := snd p; mTag := r2 rnd |}) (combine clients shs)))
+  | Ok None => Ok None
+  | Err => Err
+  | Panic => Panic
+  end.
 End WithF.
